@@ -649,7 +649,9 @@ func (w *World) Subarray(o *TypedArray, args []Value) Value {
 
 // Iterate models CreateArrayIterator over a typed array: kind "keys" | "values" | "entries"; effects run before
 // step number `at`; at most limit steps. Returns the list of produced values followed by "done" when exhausted.
-func (w *World) Iterate(o *TypedArray, kind string, at int, effs []Effect, limit int) Value {
+// again: once the iterator is exhausted run effs once more and call next() again (an exhausted iterator stays done and
+// never throws, even if the buffer is detached meanwhile).
+func (w *World) Iterate(o *TypedArray, kind string, at int, effs []Effect, limit int, again bool) Value {
 	w.validate(o)
 	out := &Array{IsArray: true}
 	for i := 0; i < limit; i++ {
@@ -661,6 +663,10 @@ func (w *World) Iterate(o *TypedArray, kind string, at int, effs []Effect, limit
 		}
 		if i >= o.Length {
 			out.Elems = append(out.Elems, "done")
+			if again {
+				w.runEffects(effs)
+				out.Elems = append(out.Elems, "done")
+			}
 			break
 		}
 		switch kind {
